@@ -41,6 +41,10 @@ CHECKS = {
             "Schedule round-trip monitor: validator-accepted weekly schedules (7 ordered days, 1..20 ordered switchpoints, all 288 times, the whole 5.00-35.00 0.01 grid, DHW on/off, zones 00-0B/HW) through full_sched_to_fragz/fragz_to_full_sched with exact equality; every fragment non-empty and <= 41 bytes; the W|0404 command from the public constructor and the RP|0404 a controller would send are decoded by the library's own decoder and must carry the same fragment; the decoder must also invert an independent encoder; a real file-sourced Gateway is fed the RP fragment packets of one or two zones in all permutations (<=4 fragments) / seeded permutations with duplications and must report the encoded schedule or none.",
             "Input class = the statement's (seven days in order); reference encoder written from the documented 20-byte record layout; zones are created by an RP|000C first, as a controller would announce them.",
             "round-trip + metamorphic (order/duplication) monitor on the real encoder, decoder and Schedule reassembly", "§3 C17"),
+    "C03": ("exploration",
+            "Builder-contract monitor over all 45 CODE_API_MAP entries with committed argument tables (in-domain sweeps and out-of-domain probes: indexes in/out of range, temperatures on the 0.01 grid and beyond, mode x until x duration matrices, leap-day/DST/year-boundary datetimes, names, fan modes/params, all 256 OpenTherm ids, fragment numbers/counts, bind offers/accepts/confirms). Every call that returns a command is judged: verb|code equals its API-map key; the library's own decoder (Message._from_cmd) accepts the frame; every value asked for is found in the decoded payload to wire resolution. A refusal is always allowed.",
+            "Argument tables are the only hand-written spec (domains cited from the constructors' own checks/docstrings); values that collide with wire sentinels are not probed; an RQ that decodes to {} by design has its index compared on the wire; 15 recorded findings (HVAC/WIP constructors, OpenTherm ids unknown to the decoder, DHW countdown/temporary encodings ...).",
+            "contract monitor (advertised verb/code, decoder acceptance, decode-back equality) over swept argument tables", "§3 C03"),
 }
 NOT_APPLICABLE = []
 
